@@ -37,7 +37,7 @@ static FILE *DEVNULL; static unsigned long DBGCTR;
 
 static rng_t R;
 static int P;                       /* 6, 7 or 11 */
-static bool abandon;
+static bool abandon, foreign_mismatch;
 
 /* ---- arena: guard | region | guard ; plus a second arena for relocated copies */
 typedef struct { unsigned char *base; size_t size; unsigned char *region; size_t rsize; } arena_t;
@@ -93,6 +93,7 @@ static bool judge(const char *prop, const char *key, const char *fmt, ...) {
     abandon = true;
     bool mine = !strcmp(prop, VF.prop);
     if (mine) { vf_viol(prop, key, "%s", msg); return true; }
+    foreign_mismatch = true;     /* the other property's oracle disagreed: this property's own walkers still get their look at the state (after_op) */
     vf_count("other_property_oracle_mismatch", 1);
     if (VF.verbose) fprintf(stderr, "  (other property %s %s: %s)\n", prop, key, msg);
     return true;
@@ -272,6 +273,12 @@ static void switch_over(void) {
 }
 
 static void after_op(bool full) {
+    if (abandon && foreign_mismatch && (P == 7 || P == 11)) {   /* e.g. the map oracle (C06) saw a wrong result: is the image itself still well-formed? */
+        foreign_mismatch = false; abandon = false;
+        if (!arena_guards_intact(&A1)) judge(P == 11 ? "C11" : "C07", "guard-zone", "bytes outside the user region were written");
+        else image_walk(A1.region, "C07");
+        abandon = true; return;
+    }
     if (abandon) return;
     if (!arena_guards_intact(&A1)) { judge(P == 11 ? "C11" : "C07", "guard-zone", "bytes outside the user region were written"); return; }
     if (P == 6 || P == 11) observe(T, true, "C06");
@@ -354,7 +361,7 @@ static void table_new(int cap, size_t shift) {
     arena_setup(&A1, rsize, shift);
     T = qhasharr(A1.region, rsize);
     if (!T) { fprintf(stderr, "qhasharr(%d) failed errno=%d\n", cap, errno); exit(2); }
-    CAP = cap; abandon = false;
+    CAP = cap; abandon = false; foreign_mismatch = false;
     if (HDR(A1.region)->maxslots != cap) { fprintf(stderr, "capacity mismatch %d vs %d\n", HDR(A1.region)->maxslots, cap); exit(2); }
 }
 static void table_free(void) { if (T) T->free(T); T = NULL; arena_drop(&A1); arena_drop(&A2); }
@@ -418,7 +425,7 @@ static void phase_exhaustive(int maxcap, long statecap) {
         for (int o = 0; o < nops; o++) {
             memcpy(A1.region, s.img, rsize);
             model_from(s.m);
-            abandon = false;
+            abandon = false; foreign_mismatch = false;
             vf_case_begin(caseno, "exhaustive capacity=%d variant=%d state#%zu depth=%d model=[%d%d%d%d%d] op#%d", cap, variant, qh - 1, s.depth, s.m[0], s.m[1], s.m[2], s.m[3], s.m[4], o);
             unsigned char nm[8]; memcpy(nm, s.m, 8);
             if (o < NU * 3) { int id = o / 3, cls = 1 + o % 3; classify_put(id); op_put(id, VLEN[cls], cls, o % 3 == 0 ? 1 : 0); }
